@@ -259,6 +259,120 @@ def reported_of_snap(snap):
     return tuple(out)
 
 
+KINDS = ["node-presentation", "child-presentation", "set", "req", "wake-up", "id-request",
+         "set_child_value"]
+
+
+def history(versions, k, checks):
+    """A bounded history from the EMPTY gateway through the public API only: k events, each a
+    symbolic message of one of seven kinds (ids, value types and texts symbolic, so the events can
+    hit the same or different nodes / children / types) or a controller set_child_value call.
+    After every event the emissions, the callback rule and the state are compared with the
+    reference model run alongside.  No state generator is involved: this is the cross-check that
+    the invariant-based step harnesses and real histories agree."""
+    def fn(w):
+        from mysensors.message import Message
+        from verifspec import refmodel as R
+        version = w.pick(versions, "version")
+        env = C.make_env(w)
+        with env.installed():
+            g = C.make_gateway(w, version, "sync", "serial",
+                               cb_raises=C.sym_flag(w, "callback_raises"))
+            ref = project(g.gw)
+            ok_types = C.str_rule_types(version)
+            local_time = env.timegm([env.local], {})
+            w.info = {"version": version, "events": []}
+            for i in range(k):
+                kind = w.pick(KINDS, f"event{i}")
+                n = w.fresh_int(f"e{i}.node", 0, 254)
+                c = w.fresh_int(f"e{i}.child", 0, 254)
+                vt = w.fresh_int(f"e{i}.vt")
+                w.assume_fast(C.one_of(w, vt, ok_types))
+                text = C.wire_payload(w, f"e{i}.text", 1, 1)
+                del g.conn.written[:]
+                del g.events.calls[:]
+                if kind == "set_child_value":
+                    w.info["events"].append(["set_child_value", n, c, vt, text])
+                    outcome, expected = w.call(R.ref_set_child_value, version, ref, n, c, vt, text)
+                    try:
+                        w.call(g.gw.set_child_value, n, c, vt, text)
+                        got = "ok"
+                    except Exception:
+                        got = "raises"
+                    try:
+                        C.drain(w, g)
+                    except Exception as exc:
+                        w.escaped(exc, "pump raised after set_child_value")
+                    w.check(got == outcome, f"event {i + 1}: set_child_value {got}, expected {outcome}")
+                    rule = R.ZERO
+                else:
+                    if kind == "node-presentation":
+                        fields, payload = [n, 255, 0, 0, 17], w.pick(["2.0", "1.4", "2.2"], f"e{i}.ver")
+                    elif kind == "child-presentation":
+                        fields, payload = [n, c, 0, 0, w.fresh_int(f"e{i}.ptype", 0, 25)], text
+                    elif kind == "set":
+                        fields, payload = [n, c, 1, 0, vt], text
+                    elif kind == "req":
+                        fields, payload = [n, c, 2, 0, vt], ""
+                    elif kind == "wake-up":
+                        fields, payload = [n, 255, 3, 0, R.wakeup_sub(version)], "5"
+                    else:
+                        fields, payload = [255, 255, 3, 0, 3], ""
+                    line = C.structured_line(w, fields, payload)
+                    w.info["events"].append(line)
+                    if C.classify(w, version, line) != "accepted":
+                        continue  # e.g. a wake-up sub-type that does not exist before 2.0
+                    m = w.new(Message, line)
+                    msg = tuple(w.get(m, f_) for f_ in C.FIELDS)
+                    try:
+                        rule, expected = w.call(R.ref_step, version, ref, msg, g.gw.metric,
+                                                local_time)
+                    except Exception as exc:
+                        w.escaped(exc, "reference model raised")
+                    try:
+                        C.step_line(w, g, line)
+                    except Exception as exc:
+                        w.escaped(exc, f"pump raised at event {i + 1} ({kind})")
+                out = C.emissions(g)
+                real = project(g.gw)
+                if "reply" in checks:
+                    is_wake = kind == "wake-up"
+                    w.check(seq_eq(w, out, expected) if not is_wake else
+                            wake_eq(w, out, expected),
+                            f"event {i + 1} ({kind}): emissions differ from the prescribed ones "
+                            f"(got {len(out)}, expected {len(expected)})")
+                if "callback" in checks:
+                    ncb = len(g.events.calls)
+                    if rule == R.ONE:
+                        w.check(ncb == 1, f"event {i + 1} ({kind}): callback fired {ncb}x")
+                    elif rule == R.ZERO:
+                        w.check(ncb == 0, f"event {i + 1} ({kind}): callback fired {ncb}x")
+                    else:
+                        w.check(ncb <= 1, f"event {i + 1} ({kind}): callback fired {ncb}x")
+                if "state" in checks:
+                    w.check(state_eq(w, real, ref),
+                            f"event {i + 1} ({kind}): state differs from the protocol meaning")
+                if "sleep" in checks:
+                    C.check_inv(w, g)
+            w.goal("history")
+    return fn
+
+
+def wake_eq(w, out, expected):
+    """Wake-up burst: some prefix (the withheld commands) in order, the rest (desired-state sets
+    produced by the flush) in any order.  The split point is not marked in the expected list, so
+    every split is tried."""
+    if len(out) != len(expected):
+        return False
+    alts = []
+    for cut in range(len(expected), -1, -1):
+        if len(expected) - cut > 3:
+            break
+        alts.append(w.and_(seq_eq(w, out[:cut], expected[:cut]),
+                           multiset_eq(w, out[cut:], expected[cut:])))
+    return w.or_(*alts)
+
+
 def version_stub(text):
     raise TypeError("version rule reached for an emitted command")
 
@@ -293,6 +407,15 @@ def build_for(prop, checks, tier, level_text, extra=None, versions=None, only=No
                                                                "internal", "stream")
                                         if only is None],
                   doc="one accepted message from an arbitrary state: implementation == reference")]
+    hv = versions
+    if q and len(versions) > 3:
+        hv = ["1.4", "2.0", "2.2"]
+    hs.append(Harness("history-from-empty", history(hv, 3 if q else 4, checks),
+                      {"events": 3 if q else 4, "kinds": KINDS, "start": "empty gateway",
+                       "versions": hv,
+                       "ids / value types / texts": "symbolic"},
+                      goals=["history"], timeout_ms=20000,
+                      doc="bounded histories through the public API vs the reference model"))
     hs += list(extra or [])
     return {
         "harnesses": hs,
